@@ -293,6 +293,9 @@ func runC17(c *Ctx) {
 		})
 	}
 	cacheOwnerRule(c, "C17.cacheowner")
+	// queries on one handle run concurrently on one Index: the concurrency rules of the library for package-level state
+	// apply to everything the driver's entry points reach
+	globalsRule(c, "C17.globals", re)
 	if okAll {
 		c.r.ok(ev, safeFname(cl), "last Close evicts the connection before closing the index, in the critical section of the decrement", csite)
 	}
